@@ -11,7 +11,7 @@ type, duplicate CSV headers, error mapping.  `formatdate` is modelled completely
 -/
 import CtyModel.Stdlib.Strings
 namespace CtyModel
-namespace Stdlib
+namespace StdNum
 
 /-- a parsed timestamp, as the accessors of `time.Time` report it -/
 structure Time where
@@ -435,5 +435,5 @@ def glueImpl (name : String) : Option (Lib → List Value → Res Value) :=
   | "indent" => some fun L => indentImpl L.nfc
   | _ => none
 
-end Stdlib
+end StdNum
 end CtyModel
